@@ -100,6 +100,9 @@ type kase struct {
 	FinalBy      string            `json:"last_conns_closed_by"`
 	FinalPush    *pushSpec         `json:"push_racing_with_last_disconnect"`
 	Race         raceSpec          `json:"race"`
+	// the identify service is closed (the first step of BasicHost.Close) BEFORE the last connections to P
+	// close: the peerstore outlives the service, and the addresses must still fall back to a finite lifetime
+	IdsClosedFirst bool `json:"identify_service_closed_before_last_disconnect,omitempty"`
 
 	cast *cast
 	cl   *claimLog
@@ -326,6 +329,9 @@ func (s *state) genCase(i int, raceOnly bool) *kase {
 	if len(k.PushesA) > 7 {
 		k.PushesA = k.PushesA[:7] // stay below identify's per-subnet push rate limit (burst 10)
 	}
+	// decided by the case index alone (no PRNG draw: every other case stays what it was); only when nothing is
+	// in flight at the last disconnect, so that the closed service has no message left to answer for
+	k.IdsClosedFirst = k.FinalPush == nil && i%11 == 5
 	return k
 }
 
@@ -421,6 +427,7 @@ func TestC13(t *testing.T) {
 	r.Require("retained_checks_with_addresses", q(200, 4000))
 	r.Require("final_expiry_checks_with_addresses", q(1200, 24000))
 	r.Require("final_expiry_checks_with_the_address_book_full", q(100, 2000))
+	r.Require("last_disconnects_after_identify_service_closed_with_addresses", q(60, 1200))
 	r.Require("final_expiry_checks_with_addresses_raced", q(400, 8000))
 	r.Require("identify_wait_released_by_timeout", q(60, 1200))
 	r.Require("identify_wait_released_promptly", q(4000, 80000))
